@@ -337,6 +337,7 @@ class DbRun:
         self.read_s = "-"
         self.reloads: list[tuple[int, Any]] = []  # (op index, reloaded database) after each export
         self.reload_errors: list[tuple[int, str]] = []
+        self.space_equal: list[tuple[int, bool]] = []
 
     def _export(self, mode: str) -> None:
         self.db.to_hdf(self.path, append=(mode == "a"), hdf_node_path=self.node)
@@ -347,6 +348,8 @@ class DbRun:
             re = self.Database.from_hdf(self.path, hdf_node_path=self.node, log=False)
             self.read_s = canon_db(re)
             self.reloads.append((op_index, re))
+            # compared now: the in-memory input space is completed lazily by later stores
+            self.space_equal.append((op_index, bool(re.input_space == self.db.input_space)))
         except Exception as e:  # noqa: BLE001
             self.read_s = "E"
             self.reload_errors.append((op_index, common.exc_class(e) + ": " + repr(e)[:120]))
@@ -492,8 +495,10 @@ def db_oracle(case, run: DbRun, twin: bool = True) -> list[tuple[str, str]]:
         bad.append(("memory-differs", f"the in-memory database differs from the stored content: {m}"))
     if run.reloads and not bad:
         idx, re = run.reloads[-1]
-        if re.input_space != run.db.input_space:
-            bad.append(("input-space-differs", "the reloaded input space differs from the in-memory one"))
+        for k, ok in run.space_equal:
+            if not ok:
+                bad.append(("input-space-differs", f"after the export at op {k} the reloaded input space differs from the in-memory one"))
+                break
         if twin:
             dim = len(exp[0][0]["xs"]) if (exp and case.get("space")) else None
             try:
